@@ -13,6 +13,7 @@ fn main() {
     let shard: u64 = arg(&args, "--shard").map(|s| s.parse().unwrap()).unwrap_or(0);
     let out = arg(&args, "--out").unwrap_or_default();
     let atom = arg(&args, "--atom");
+    let nshards: u64 = arg(&args, "--nshards").map(|s| s.parse().unwrap()).unwrap_or(1);
     dbx::install_panic_hook();
     report::init(&check, &tier, seed, shard, &out);
     match check.as_str() {
@@ -49,6 +50,18 @@ fn main() {
             p.reopen = true;
             p.configs = vec![dbx::default_cfg(), dbx::cfg(4096, 64, 2, 3, 2), dbx::cfg(4096, 1000, 16, 4, 3), dbx::cfg(8192, 200, 4, 3, 1)];
             hist::run_profile(&p, seed, shard, if tier == "thorough" { 4000 } else { 300 });
+        }
+        "C04" => {
+            if shard == 0 {
+                witness::run_witnesses("C04");
+            }
+            c04::run(seed, &tier, shard, nshards);
+        }
+        "C06" => {
+            if shard == 0 {
+                witness::run_witnesses("C06");
+            }
+            c06::run(seed, &tier, shard);
         }
         "C12" => {
             if shard == 0 {
